@@ -110,13 +110,15 @@ func genSpec(t *rapid.T) clientSpec {
 	}
 	n := rapid.IntRange(0, 8).Draw(t, "nalpn")
 	for i := 0; i < n; i++ {
-		switch rapid.IntRange(0, 4).Draw(t, "alpnKind") {
+		switch rapid.IntRange(0, 5).Draw(t, "alpnKind") {
 		case 0:
 			cs.ALPN = append(cs.ALPN, "h2")
 		case 1:
 			cs.ALPN = append(cs.ALPN, "http/1.1")
 		case 2:
 			cs.ALPN = append(cs.ALPN, strings.Repeat("p", rapid.IntRange(200, 255).Draw(t, "longProto")))
+		case 3:
+			cs.ALPN = append(cs.ALPN, []string{"H2", "HTTP/1.1", "Http/1.1", "h2C", "ACME-TLS/1"}[rapid.IntRange(0, 4).Draw(t, "caseProto")])
 		default:
 			cs.ALPN = append(cs.ALPN, rapid.StringMatching(`[a-z0-9/.-]{1,12}`).Draw(t, "proto"))
 		}
@@ -265,8 +267,33 @@ func mutate(t *rapid.T, flight []byte) ([]byte, string) {
 		last = &exts[n-1]
 		exts = exts[:n-1]
 	}
-	kind := rapid.IntRange(0, 3).Draw(t, "mutation")
+	kind := rapid.IntRange(0, 4).Draw(t, "mutation")
 	switch kind {
+	case 4: // GREASE (RFC 8701), unassigned and assigned code points written over entries of the value lists, in place
+		codes := []uint16{0x0a0a, 0x5a5a, 0xfafa, 0xeaea, 0x4242, 0x1301, 0x001d}
+		code := func(label string) []byte {
+			return binary.BigEndian.AppendUint16(nil, codes[rapid.IntRange(0, len(codes)-1).Draw(t, label)])
+		}
+		prefix = append([]byte(nil), prefix...)
+		if rapid.Bool().Draw(t, "inSuites") {
+			at := 9 + 2 + 32
+			at += 1 + int(prefix[at])
+			n := int(binary.BigEndian.Uint16(prefix[at:])) / 2
+			if n > 0 {
+				copy(prefix[at+2+2*rapid.IntRange(0, n-1).Draw(t, "suiteIdx"):], code("suiteCode"))
+			}
+		}
+		for i := range exts {
+			hdr := map[uint16]int{10: 2, 43: 1, 13: 2}[exts[i].typ] // supported_groups, supported_versions, signature_algorithms
+			if hdr == 0 || !rapid.Bool().Draw(t, "inList") {
+				continue
+			}
+			d := append([]byte(nil), exts[i].data...)
+			if n := (len(d) - hdr) / 2; n > 0 {
+				copy(d[hdr+2*rapid.IntRange(0, n-1).Draw(t, "listIdx"):], code("listCode"))
+			}
+			exts[i].data = d
+		}
 	case 0: // insert GREASE / unknown extensions
 		for i := rapid.IntRange(1, 3).Draw(t, "ngrease"); i > 0; i-- {
 			pos := rapid.IntRange(0, len(exts)).Draw(t, "greasePos")
@@ -298,7 +325,7 @@ func mutate(t *rapid.T, flight []byte) ([]byte, string) {
 	if last != nil {
 		exts = append(exts, *last)
 	}
-	return joinHello(prefix, exts), []string{"grease", "permuted", "dropped", "sni-extra-name+padding"}[kind]
+	return joinHello(prefix, exts), []string{"grease", "permuted", "dropped", "sni-extra-name+padding", "list-values"}[kind]
 }
 
 // ---- the comparison ----
@@ -362,7 +389,15 @@ public:
 	}
 	if alpnCfg != nil {
 		cfg["alpn"] = alpnCfg
-		want = want && bareCtxMatcher("tls.handshake_match.alpn", alpnCfg).Match(&w)
+		// protocol names are opaque byte strings (RFC 7301); a server holding alpnCfg as its NextProtos negotiates one
+		// exactly when one of them equals one of the client's, byte for byte
+		mutual := false
+		for _, s := range alpnCfg {
+			for _, c := range w.SupportedProtos {
+				mutual = mutual || s == c
+			}
+		}
+		want = want && mutual
 	}
 	cb, _ := json.Marshal(cfg)
 	m := mx.MustMatcher("tls", string(cb))
@@ -422,7 +457,7 @@ func genMatcherCfg(t *rapid.T, cs clientSpec) (sni, alpn []string) {
 	default:
 		sni = []string{"nomatch.invalid"}
 	}
-	switch rapid.IntRange(0, 3).Draw(t, "alpnCfg") {
+	switch rapid.IntRange(0, 4).Draw(t, "alpnCfg") {
 	case 0:
 	case 1:
 		alpn = []string{"h2"}
@@ -432,8 +467,19 @@ func genMatcherCfg(t *rapid.T, cs clientSpec) (sni, alpn []string) {
 		} else {
 			alpn = []string{"http/1.1"}
 		}
-	default:
+	case 3:
 		alpn = []string{"nomatch"}
+	default:
+		// names that differ from the client's only in letter case are different names
+		alpn = []string{"h2c", "acme-tls/1"}
+		if len(cs.ALPN) > 0 {
+			p := cs.ALPN[0]
+			if up := strings.ToUpper(p); up != p {
+				alpn = append(alpn, up)
+			} else {
+				alpn = append(alpn, strings.ToLower(p))
+			}
+		}
 	}
 	return
 }
